@@ -167,6 +167,12 @@ theorem iter_sorted {s : Store} {d : Spec.KV.DB} (h : Rel s d) {b : Bucket} {p :
     simp only [List.mem_filter, DB.mem_bucketEntries, Bool.and_eq_true, DB.get_eq_some_iff h.dNodup]
 
 example : Rel [] {} := Rel.init
+-- a related store / database pair with an existing bucket `a` (hypotheses of `iter_sorted`)
+example : ∃ (s : Store) (d : Spec.KV.DB), Rel s d ∧ [[97]] ∈ d.buckets :=
+  ⟨SMap.insert [] (idxKey ([] ++ [[97]])) [97], _,
+   Rel.init.create (q := []) (n := [97]) (Or.inl rfl) (by unfold ValidName; decide) (by simp)
+     (SMap.insert_sorted SMap.sorted_nil _ _) (by intro k0; rw [SMap.get_insert]),
+   by simp⟩
 
 /-- Not claimed by the property (and false): the iterator INSIDE a write transaction is "committed
     range, then the batch's net puts in range" – it neither hides a committed key the transaction
@@ -212,6 +218,9 @@ theorem kv_refines (ops : List Op) : RunsAgree ops (Model.KV.run {} ops) (Spec.K
 theorem kv_step_refines {m : Sys} {σ : Spec.KV.Sys} (h : SysRel m σ) (op : Op) :
     SysRel (m.step op).1 (σ.step op).1 ∧ ObsAgree op (m.step op).2 (σ.step op).2 :=
   step_sim deleteSpec h op
+
+example : SysRel {} {} := SysRel.init
+example : Sys.Inv {} := Sys.inv_init
 
 /-- isolation, spelled out: a reader never sees the pending batch – its results depend only on
     the committed store -/
